@@ -132,6 +132,20 @@ func newMaterial() (m *material, err error) {
 		return nil, err
 	}
 	m.keys["rsa"], m.keys["ec"], m.keys["ed25519"] = rsaKey, ecKey, edKey
+	// keys of the same algorithms that belong to no certificate of this material
+	rsaKey2, err := rsa.GenerateKey(rand.Reader, 2048)
+	if err != nil {
+		return nil, err
+	}
+	ecKey2, err := ecdsa.GenerateKey(elliptic.P256(), rand.Reader)
+	if err != nil {
+		return nil, err
+	}
+	m.keys["rsa2"], m.keys["ec2"] = rsaKey2, ecKey2
+	ec2DER, err := x509.MarshalECPrivateKey(ecKey2)
+	if err != nil {
+		return nil, err
+	}
 	for _, cl := range []struct {
 		name string
 		pub  crypto.PublicKey
@@ -163,10 +177,18 @@ func newMaterial() (m *material, err error) {
 		{"key:ec", "ec.key", "EC PRIVATE KEY", ecDER},
 		{"ca:ca", "ca.pem", "CERTIFICATE", m.cas["ca"].Raw},
 		{"ca:ca2", "ca2.pem", "CERTIFICATE", m.cas["ca2"].Raw},
+		{"key:rsa2", "rsa2.key", "RSA PRIVATE KEY", x509.MarshalPKCS1PrivateKey(rsaKey2)},
+		{"key:ec2", "ec2.key", "EC PRIVATE KEY", ec2DER},
 	} {
 		if err = write(w.slot, w.file, w.typ, w.der); err != nil {
 			return nil, err
 		}
+	}
+	// a CA file that holds two authorities
+	m.files["ca:bundle"] = filepath.Join(m.dir, "bundle.pem")
+	bundle := append(pem.EncodeToMemory(&pem.Block{Type: "CERTIFICATE", Bytes: m.cas["ca"].Raw}), pem.EncodeToMemory(&pem.Block{Type: "CERTIFICATE", Bytes: m.cas["ca2"].Raw})...)
+	if err = os.WriteFile(m.files["ca:bundle"], bundle, 0o600); err != nil {
+		return nil, err
 	}
 	m.files["garbage"] = filepath.Join(m.dir, "garbage.pem")
 	if err = os.WriteFile(m.files["garbage"], []byte("-----BEGIN NOTHING-----\nthis is not PEM material\n"), 0o600); err != nil {
